@@ -24,6 +24,9 @@ def run_history(ctx, exe, rng, idx):
     st = collections.Counter()
     nag = rng.choice([2, 3])
     ags = [agents.Agent(exe, name="agent%d" % i) for i in range(nag)]
+    if idx % 2:
+        for ag in ags:
+            ag.cmd("inject 30")        # half of the histories: 30% of sem_wait/sem_open/shm_open calls return EINTR first
     base = "vfC07-%d-%d-%d" % (os.getpid(), ctx.seed, idx)
     names = [base + "-" + c for c in "ab"[:rng.choice([1, 2])]]
     inst = {n: None for n in names}            # name -> dict(size, img, byarg)
@@ -120,6 +123,31 @@ def run_history(ctx, exe, rng, idx):
                 if not verify_all(what):
                     ok = False
                     break
+            elif r < 0.69 and len(live) >= 2:
+                a, h = rng.choice(live)
+                same = [k for k in live if k != (a, h) and hs[k]["inst"] is hs[(a, h)]["inst"]]
+                if not same:
+                    continue
+                b, g = rng.choice(same)
+                tag = "L%d" % step
+                what = "lock-probe agent%d h%d holds, agent%d h%d must wait" % (a, h, b, g)
+                log.append(what)
+                if ags[a].cmd("shmlock %d" % h) != "ok":
+                    ok = fail("history symptom=lock-failed", "p_shm_lock failed")
+                    break
+                ags[b].cmd("lock_bg %d %s" % (g, tag))
+                early = ags[b].poll_bg(tag, 0.1)
+                if early:
+                    ags[a].cmd("shmunlock %d" % h)
+                    ok = fail("history symptom=two-lock-holders", "p_shm_lock through another handle of the same segment returned while the lock was held (handles opened at different times do not share one lock)")
+                    break
+                ags[a].cmd("shmunlock %d" % h)
+                late = ags[b].poll_bg(tag, 20)
+                if not late or "acquired" not in late:
+                    ok = fail("history symptom=unlock-not-seen-by-other-handle", "an unlock through one handle did not release a locker blocked on another handle of the same segment")
+                    break
+                ags[b].cmd("shmunlock %d" % g)
+                st["lock_probes"] += 1
             elif r < 0.72:
                 a, h = rng.choice(live)
                 log.append("take_ownership agent%d h%d" % (a, h))
@@ -152,12 +180,21 @@ def run_history(ctx, exe, rng, idx):
                     if inst[n] is not None and not os.path.exists(agents.shm_path(n)):
                         ok = fail("history symptom=name-removed-by-non-owner", "segment name disappeared after a non-owner free")
                         break
+                    if inst[n] is not None and not os.path.exists(agents.shm_lock_path(n)):
+                        ok = fail("history symptom=lock-semaphore-removed-by-non-owner", "the segment's lock semaphore disappeared after a non-owner free while the segment is alive")
+                        break
             st["ops"] += 1
     except (agents.AgentDied, agents.AgentTimeout) as e:
         fail("history symptom=agent-died", str(e)[:400])
         ok = False
     finally:
         for ag in ags:
+            try:
+                if ag.alive() and idx % 2:
+                    stats_inj = int(ag.cmd("injected", timeout=5).split()[1])
+                    (stats if "stats" in dir() else st)["eintr_injected"] += stats_inj
+            except Exception:
+                pass
             ag.kill()
         agents.sweep([agents.shm_path(n) for n in names] + [agents.shm_lock_path(n) for n in names])
     return ok, log, st
